@@ -348,6 +348,12 @@ func writeOutParamZeroValue(b *buffer, tm *t.Map, typ *a.TypeExpr) error {
 		}
 	} else if (typ.Decorator() == 0) && (typ.QID()[0] == t.IDBase) {
 		switch typ.QID()[1] {
+		case t.IDBool:
+			b.writes("false")
+			return nil
+		case t.IDEmptyStruct:
+			b.writes("wuffs_base__make_empty_struct()")
+			return nil
 		case t.IDBitvec256:
 			b.writes("wuffs_base__utility__make_bitvec256(0u, 0u, 0u, 0u)")
 			return nil
